@@ -60,8 +60,16 @@ func WriteFavorites(userID *ptttype.UserID_t, content []byte) (mtime types.Time4
 		return 0, err
 	}
 
-	err = os.WriteFile(filename, content, types.DEFAULT_FILE_CREATE_PERM)
+	// write to a temporary name and rename, as FavRaw.Save does:
+	// a crash in the middle must not leave a truncated .fav behind.
+	tmpFilename := filename + ".tmp." + types.GetRandom()
+	err = os.WriteFile(tmpFilename, content, types.DEFAULT_FILE_CREATE_PERM)
 	if err != nil {
+		return 0, err
+	}
+	err = os.Rename(tmpFilename, filename)
+	if err != nil {
+		_ = os.Remove(tmpFilename)
 		return 0, err
 	}
 
